@@ -137,6 +137,9 @@ def ro_case(draw, families=None, exact_only=False, max_cons=4, allow_eq=True, al
                 if not any(pc['d0']) and not any(pc['e']) and not any(any(r) for r in pc['D']):
                     pc['d0'][0] = 1.0
                 obj['extra'].append(pc)
+            if draw(st.booleans()):
+                # the same objective written as maxof(p0 - g, p1 - g, ...) + g with a common affine term g(x) taken out
+                obj['pw_shift'] = {'g': _vec(draw, nx), 'g0': float(draw(st.integers(-2, 2))), 'side': draw(st.sampled_from(['right', 'left', 'sub']))}
     case = {'nx': nx, 'ny': ny, 'nz': nz, 'nu': nu, 'ymask': ymask, 'sets': sets, 'cons': cons,
             'xlo': xlo, 'xhi': xhi, 'obj': obj, 'witness': {'x': xbar, 'y0': ybar, 'Y': Ybar},
             'set_arg': draw(st.sampled_from(['list', 'tuple', 'varargs'])),
@@ -312,7 +315,13 @@ def build(case, order=None):
             import rsome as rso
             more = [_row_expr({'a0': pc['d0'], 'A': pc['D'], 'b': pc['e'], 'c': pc['f'], 'c0': pc['f0']}, x, y, z, u, nz,
                               o.get('style', 0)) for pc in o['extra']]
+            sh = o.get('pw_shift')
+            if sh:
+                g = np.array(sh['g']) @ x + sh['g0']
+                e, more = e - g, [q - g for q in more]
             e = rso.maxof(e, *more) if o['kind'] == 'minmax' else rso.minof(e, *more)
+            if sh:
+                e = e + g if sh['side'] == 'right' else g + e if sh['side'] == 'left' else e - (-g)
         (m.minmax if o['kind'] == 'minmax' else m.maxmin)(e, *setarg(0))
         default_needed = False
     xlo, xhi = np.array(case['xlo']), np.array(case['xhi'])
